@@ -190,7 +190,7 @@ fn read_sqe(ring: &Ring, idx: u32) -> Sqe {
 pub fn consume(s: &mut Simk, fd: i32, max: u32) -> u32 {
     let (tail, head, entries) = {
         let Some(ring) = s.rings.get(&fd) else { return 0 };
-        if !ring.usable() {
+        if !ring.can_consume() {
             return 0;
         }
         (ring.a10_sq_tail(), ring.sq_head, ring.sq_entries)
